@@ -39,7 +39,7 @@ def sym_vector(cx, name, kind=None):
 class IsNa(Contract):
     """Vector.is_na flags exactly the missing elements: NaT / NaN / "" / None by dtype kind."""
     file, qualname, prop = F, "Vector.is_na", "C10"
-    also = ("C02", "C05")
+    also = ("C02", "C03", "C05", "C06", "C11")
 
     def setup(self, cx):
         return {"self": sym_vector(cx, "self"), "args": []}
@@ -411,3 +411,86 @@ class OptimizeForArgsortBounded(Contract):
         cx.prove("structure: returns the receiver or an astype() copy", all(
             (isinstance(r.value, _a.Name) and r.value.id == "self") or
             (isinstance(r.value, _a.Call) and isinstance(r.value.func, _a.Attribute) and r.value.func.attr == "astype") for r in rets))
+
+
+# =========================================================================================
+# C10: the missing-value model
+# =========================================================================================
+def _mk_na_table(kind_):
+    class T(Contract):
+        """na_value / na_dtype by dtype kind: NaT for datetime and timedelta, NaN for float and integers (which widen to
+        float), "" for strings, None (in an object vector) otherwise - and the na_dtype can hold the na_value."""
+        file, qualname, prop, variant = F, "Vector.na_value", "C10", f"kind {kind_}"
+
+        def setup(self, cx):
+            return {"self": sym_vector(cx, "self", kind=kind_), "args": [], "prop_get": True}
+
+        def ensures(self, cx, result):
+            from pyvc.models_np import NAN, NAT, DType
+            it = cx.it
+            v = cx.inputs["self"]
+            want = {"datetime": NAT, "timedelta": NAT, "float": NAN, "int": NAN, "uint": NAN, "string": M.to_v(it, ""), "fixedstr": M.to_v(it, "")}.get(kind_, NONE)
+            cx.prove("na_value", M.to_v(it, result) == want)
+            d = it.getattr(v, "na_dtype")
+            wantk = {"datetime": "datetime", "timedelta": "timedelta", "float": "float", "int": "float", "uint": "float", "string": "string",
+                     "fixedstr": "fixedstr"}.get(kind_, "object")
+            dk = d.kind if isinstance(d, DType) else M.astype_kind_of(it, d)
+            cx.prove("na_dtype", dk == wantk if isinstance(dk, str) else False)
+            # a vector of na_dtype holding na_value flags it as missing
+            cx.prove("na_dtype can hold na_value as a missing value", na_formula(it, z3.IntVal(KCODE[wantk]), want))
+            cx.prove("agrees with the table used as callee contract elsewhere",
+                     z3.And(M.to_v(it, result) == na_value_term(it, z3.IntVal(KCODE[kind_])), KCODE[wantk] == z3.simplify(na_kind_term(z3.IntVal(KCODE[kind_])))))
+    T.__name__ = "NaTable_" + kind_
+    return register(T)
+
+
+for _k in KINDS:
+    _mk_na_table(_k)
+
+
+def _equal_formula(cx, a, b):
+    """run the real Vector.equal(a, b) symbolically; returns the formula 'equal returned True'.  All paths are merged."""
+    it, ctx = cx.it, cx.ctx
+    f = it.class_attr(vector_cls(it), "equal")[1]
+    res = ctx.explore(lambda: M.truth(it, it.call(f, [a, b], {})))
+    parts = []
+    for conds, kind, val, full in res:
+        c = z3.And(*conds) if conds else z3.BoolVal(True)
+        if kind != "ok":
+            # totality: a comparison of two vectors answers, it does not raise
+            ob = cx.prove(f"equal answers without raising ({val.exc})", z3.Not(c), kind="raises")
+            continue
+        v = z3.BoolVal(val) if isinstance(val, bool) else val
+        facts = [x for x in full[0] if not any(x is cc for cc in conds)]
+        ctx.assumptions.extend(z3.Implies(c, fa) for fa in facts)
+        parts.append(z3.And(c, v))
+    return z3.Or(*parts) if parts else z3.BoolVal(False)
+
+
+@register
+class EqualIsEquivalence(Contract):
+    """Vector.equal is an equivalence relation that treats missing values as equal to each other: it holds exactly when
+    the two vectors have the same length and missing-value kind, the same missing positions and equal values elsewhere
+    (characterisation), hence reflexive, symmetric and transitive."""
+    file, qualname, prop = F, "Vector.equal", "C10"
+    callees = V_CALLEES
+    lemma_only = True
+
+    def setup(self, cx):
+        k = cx.ctx.fresh("kind", INT)
+        cx.assume(z3.And(k >= 0, k < len(KINDS)))
+        a, b = sym_vector(cx, "a", kind=k), sym_vector(cx, "b", kind=k)
+        return {"self": None, "a": a, "b": b}
+
+    def ensures(self, cx, result):
+        ctx, it = cx.ctx, cx.it
+        a, b = cx.inputs["a"], cx.inputs["b"]
+        E = _equal_formula(cx, a, b)
+        j = ctx.fresh("j", INT)
+        na = lambda v, i: na_formula(it, v.sym["kind"], v.sym["elem"](i))
+        # element == as NumPy evaluates it on non-missing elements of one kind: value equality
+        spec = z3.And(a.sym["len"] == b.sym["len"],
+                      z3.ForAll([j], z3.Implies(in_range(j, a.sym["len"]), z3.And(
+                          na(a, j) == na(b, j), z3.Implies(z3.Not(na(a, j)), a.sym["elem"](j) == b.sym["elem"](j))))))
+        cx.prove("characterisation (=>): equal implies same length, same missing positions, equal values elsewhere", z3.Implies(E, spec))
+        cx.prove("characterisation (<=)", z3.Implies(spec, E))
